@@ -147,6 +147,8 @@ fn verif_keyset_encrypt_step() {
     let after1 = ks.crypto.0[1].encrypted_packets();
     // a key is never used beyond its confidentiality limit
     assert!(after0 <= pre.conf && after1 <= pre.conf);
+    // sending does not touch the receive-side failure count
+    assert!(ks.packet_decryption_failures == pre.failures);
     match res {
         Ok(_) => {
             // exactly one counter advanced by one: the one of the key that was handed out
@@ -361,6 +363,10 @@ fn verif_keyset_timeout_step() {
     assert!(ks.generation == pre.g && ks.key_phase == pre.phase);
     assert!(ks.active_key().encrypted_packets() == e_active);
     assert!(active_generation(&mut ks) == pre.g);
+    // RFC 9001 6.6: authentication failures are counted over the lifetime of the connection,
+    // across all keys: deriving new keys must not forget them
+    assert!(ks.packet_decryption_failures == pre.failures);
+    assert!(ks.aead_integrity_limit == pre.integ);
     if !(pre.in_progress && active_needs_update) {
         assert!(send_generation(&mut ks) >= send_gen0);
     }
